@@ -85,13 +85,17 @@ class PriorityOracle:
         if sus:
             R.probe("priority_suspension", len(sus))
             nq = 0
+            multi = s.params["multi_operator_containers"]
             for p in R.pipes:
                 if p.priority.name == Q and p.runtime_status().finish_tick is None:
-                    nq += sum(1 for st in p.runtime_status().operator_states.values() if st.value in ("pending", "failed"))
+                    k = sum(1 for st in p.runtime_status().operator_states.values() if st.value in ("pending", "failed"))
+                    # a waiting job is one operator in single-operator mode; with multi-operator containers all waiting
+                    # operators of a pipeline form one job (queued together on arrival, retried together after an OOM)
+                    nq += (1 if k else 0) if multi else k
             if nq == 0:
                 raise Violation("C12.suspend_nothing_waiting", {"suspensions": len(sus)}, t)
             if len(sus) > nq:
-                raise Violation("C12.suspend_too_many", {"suspensions": len(sus), "waiting_query_operators": nq}, t)
+                raise Violation("C12.suspend_too_many", {"suspensions": len(sus), "waiting_query_jobs_at_most": nq}, t)
             seen = set()
             for su in sus:
                 cs = rd["cansusp"].get(su.container_id)
@@ -314,7 +318,7 @@ class StatsOracle:
             pr = p.priority.name
             arr[pr] += 1
             rs = p.runtime_status()
-            at = R.arrival[p.pipeline_id][0]
+            at = R.arr_tick[id(p)]
             if rs.arrival_tick != at:
                 raise Violation("C06.arrival_tick", {"pipeline": p.pipeline_id, "recorded": rs.arrival_tick, "arrived": at}, t_end)
             done = [R.log.done_tick.get(id(o)) for o in p.values]
